@@ -6,39 +6,31 @@ import (
 	"github.com/idena-network/idena-go/blockchain/types"
 
 	"verifharness/internal/evid"
-	"verifharness/internal/kf"
 )
 
+// Regression (found by this check, repaired by fix commit 919f1200):
 // SavedTransaction.ToBytes supports a missing transaction (it guards
-// `s.Tx != nil`), but FromBytes guards `protoObj != nil` instead of
-// `protoObj.Tx != nil` and dereferences the missing message: the type cannot
-// decode its own encoding when the optional Tx field is nil. Repo.SaveTx, the
-// only producer in the repository, always passes a transaction, so the main
-// generator keeps Tx non-nil and this shape is probed here.
+// `s.Tx != nil`), but FromBytes guarded `protoObj != nil` instead of
+// `protoObj.Tx != nil` and dereferenced the missing message, so the type could
+// not decode its own encoding when the optional Tx field was nil.
 func TestSavedTransactionWithoutTx(t *testing.T) {
 	evid.Eval()
-	evid.Count("known-shape.SavedTransaction.Tx-nil")
+	evid.Count("regression.SavedTransaction.Tx-nil")
 	s := &types.SavedTransaction{Timestamp: 7}
 	b, err := s.ToBytes()
 	if err != nil {
 		t.Fatalf("encode: %v", err)
 	}
-	var decErr interface{}
-	func() {
-		defer func() { decErr = recover() }()
-		d := new(types.SavedTransaction)
-		if err := d.FromBytes(b); err != nil {
-			decErr = err
-			return
-		}
-		if d.Tx != nil || d.Timestamp != 7 {
-			decErr = "decoded to a different object"
+	defer func() {
+		if r := recover(); r != nil {
+			t.Fatalf("types.SavedTransaction{Tx: nil, Timestamp: 7} encodes to %x but decoding its own encoding panics: %v", b, r)
 		}
 	}()
-	if decErr != nil {
-		if kf.Report(t, "C18", "c18.savedtransaction.tx-nil-decode-panics",
-			"types.SavedTransaction{Tx: nil, Timestamp: 7} encodes to %x but decoding its own encoding fails: %v (FromBytes tests `protoObj != nil` where `protoObj.Tx != nil` is meant; unreachable through Repo.SaveTx)", b, decErr) {
-			return
-		}
+	d := new(types.SavedTransaction)
+	if err := d.FromBytes(b); err != nil {
+		t.Fatalf("decode of own encoding %x: %v", b, err)
+	}
+	if d.Tx != nil || d.Timestamp != 7 {
+		t.Fatalf("decoded to a different object: %+v", d)
 	}
 }
